@@ -104,6 +104,8 @@ def run_C01(ctx, rng, tier, res, known):
     q = tier == "quick"
     stage_drift(ctx, res, pf_to_stage_lines(cases, rng, 3000 if q else 40000), ("std", "std+compact"), "parse_number")
     stage_drift(ctx, res, slow_stage_lines(rng, "f64", 300 if q else 5000), ("std", "std+alloc", "std+compact"), "digit_comp")
+    if not q:
+        cross_target_pass(ctx, rng, res, gens.gen_boundary(rng, "f64", 200) + gens.gen_bigint_ties(rng, "f64", 60) + _mod().cases_long(rng, "quick", "f64")[::40])
     return {}
 
 def run_C02(ctx, rng, tier, res, known):
@@ -116,6 +118,8 @@ def run_C02(ctx, rng, tier, res, known):
     q = tier == "quick"
     stage_drift(ctx, res, pf_to_stage_lines(cases, rng, 3000 if q else 40000), ("std", "std+compact"), "parse_number")
     stage_drift(ctx, res, slow_stage_lines(rng, "f32", 300 if q else 5000), ("std", "std+alloc", "std+compact"), "digit_comp")
+    if not q:
+        cross_target_pass(ctx, rng, res, gens.gen_boundary(rng, "f32", 200) + gens.gen_bigint_ties(rng, "f32", 60) + _mod().cases_long(rng, "quick", "f32")[::40])
     return {}
 
 def double_rounding_cases(rng, n):
@@ -348,6 +352,9 @@ def run_C06(ctx, rng, tier, res, known):
         t = line.split()
         pm.append("pm %s %s %d" % (t[2], t[3], gens.FMT[t[1]]["maxdig"]))
     stage_drift(ctx, res, pm, ("std", "std+alloc"), "parse_mantissa")
+    if tier != "quick":
+        # 32-bit limbs chunk the digits in steps of 9 instead of 19: run long inputs under Miri for i686 / s390x
+        cross_target_pass(ctx, rng, res, cases, n=120)
     return {}
 
 # ------------------------------------------------------------------ C07
@@ -456,6 +463,30 @@ def site_log_correspondence(ctx, rng, res, garbage_lines, n):
     res.evals += total
     res.extra["site_log_lines"] = total
     res.extra["site_log_reads_by_table"] = hist
+
+def cross_target_pass(ctx, rng, res, cases, n=140):
+    """supporting check (thorough): the same valid inputs through the real code interpreted by Miri for a
+    32-bit target (i686: 32-bit limbs, 125-limb vectors, 9-digit chunks, 32-bit LARGE_POW5 table) and a
+    big-endian 64-bit target (s390x); the result must equal the exact spec (rne), which is independent of
+    the limb size. Not covered by the model (64-bit limbs, little-endian), hence a test, not a proof."""
+    pool = [c[0].split(" ## ")[0] for c in cases if len(c[0]) < 1800]
+    sel = pool if len(pool) <= n else rng.sample(pool, n)
+    spec = [_mod().parse_model(x)[2] for x in run_model("std", "release", sel)]
+    tot = 0
+    for target, cfgs in (("i686-unknown-linux-gnu", ("std", "std+compact", "std+alloc")), ("s390x-unknown-linux-gnu", ("std",))):
+        for c in cfgs:
+            out, ub = run_miri(c, sel, target=target)
+            tot += len(out)
+            for line, o, sp in zip(sel, out, spec):
+                if sp is not None and o != sp:
+                    res.viol.append(("wrong-result-cross-target", dict(case=line, cfg=c, target=target, impl=o, spec=sp)))
+            if ub is not None:
+                if ub.get("is_ub"):
+                    res.viol.append(("miri-undefined-behaviour", dict(case=ub["case"], cfg=c, target=target, message=ub["message"])))
+                else:
+                    res.fault.append(dict(why="cross-target miri run failed", cfg=c, target=target, message=ub["message"][:300]))
+    res.evals += tot
+    res.extra["cross_target_cases"] = res.extra.get("cross_target_cases", 0) + tot
 
 def miri_valid_slow_cases(rng):
     out = []
